@@ -23,6 +23,8 @@ pub struct Variant {
     pub ref_func_loc: bool,
     /// the module already holds a declared element segment, written in the expression form
     pub declared_expr_segment: bool,
+    /// the start function is a local function `$init` that is also exported as `s_exp`
+    pub local_start: bool,
 }
 
 #[derive(Clone, Copy, Debug, PartialEq, Eq)]
@@ -31,6 +33,9 @@ pub enum Target {
     ImportB,
     ImportS,
     ExportLoc,
+    /// the export `s_exp` of the start function: only the export is retargeted, the start section
+    /// keeps running the original
+    ExportStart,
 }
 
 /// "scratch": the new body keeps an intermediate value in a local of its own, which has to be
@@ -143,6 +148,15 @@ fn wat(v: &Variant, replaced: Option<(Target, usize, usize)>) -> String {
     if v.with_start {
         s += "  (start $s)\n";
     }
+    if v.local_start {
+        s += "  (func $init (type $v) (global.set $g (i32.const 11)))\n";
+        if let Some((Target::ExportStart, b, _)) = replaced {
+            s += &format!("  (func $repl (type $v) {})\n  (export \"s_exp\" (func $repl))\n", body_s(b));
+        } else {
+            s += "  (export \"s_exp\" (func $init))\n";
+        }
+        s += "  (start $init)\n";
+    }
     s += ")\n";
     s
 }
@@ -210,9 +224,8 @@ fn edit(orig: &[u8], v: &Variant, target: Target, body: usize) -> Result<Vec<u8>
                 })
                 .map_err(|e| e.to_string())?;
             }
-            Target::ImportS => {
-                let fs = m.imports.get_func("env", "s").map_err(|e| e.to_string())?;
-                m.replace_imported_func(fs, |(b, _)| match body {
+            Target::ImportS | Target::ExportStart => {
+                let fill = |b: &mut walrus::InstrSeqBuilder| match body {
                     0 | 1 => {}
                     2 => {
                         b.i32_const(1).call(fa).drop();
@@ -236,8 +249,14 @@ fn edit(orig: &[u8], v: &Variant, target: Target, body: usize) -> Result<Vec<u8>
                     _ => {
                         b.unreachable();
                     }
-                })
-                .map_err(|e| e.to_string())?;
+                };
+                if target == Target::ImportS {
+                    let fs = m.imports.get_func("env", "s").map_err(|e| e.to_string())?;
+                    m.replace_imported_func(fs, |(b, _)| fill(b)).map_err(|e| e.to_string())?;
+                } else {
+                    let fs = m.exports.get_func("s_exp").map_err(|e| e.to_string())?;
+                    m.replace_exported_func(fs, |(b, _)| fill(b)).map_err(|e| e.to_string())?;
+                }
             }
             Target::ExportLoc => {
                 m.replace_exported_func(floc, |(b, args)| match body {
@@ -298,6 +317,7 @@ fn target_of(s: &str) -> Target {
         "ImportA" => Target::ImportA,
         "ImportB" => Target::ImportB,
         "ImportS" => Target::ImportS,
+        "ExportStart" => Target::ExportStart,
         _ => Target::ExportLoc,
     }
 }
@@ -308,7 +328,7 @@ pub fn plan_one(v: &Variant, t: Target, body: usize) -> Result<Planned, String> 
     if t == Target::ExportLoc && v.double_export {
         expected.push(assemble(&wat(v, Some((t, body, 1))))?);
     }
-    let cfg = json!({"with_start": v.with_start, "reexport": v.reexport, "double_export": v.double_export, "two_imports": v.two_imports, "dup_names": v.dup_names, "ref_func_loc": v.ref_func_loc, "declared_expr_segment": v.declared_expr_segment, "target": format!("{:?}", t), "body": body});
+    let cfg = json!({"with_start": v.with_start, "reexport": v.reexport, "double_export": v.double_export, "two_imports": v.two_imports, "dup_names": v.dup_names, "ref_func_loc": v.ref_func_loc, "declared_expr_segment": v.declared_expr_segment, "local_start": v.local_start, "target": format!("{:?}", t), "body": body});
     Ok(Planned {
         case: Case { family: "replace".into(), coords: format!("{:?} {:?} body={}", v, t, BODIES[body]), wasm: orig.clone(), cfg },
         orig,
@@ -323,7 +343,7 @@ pub fn plan() -> Vec<Planned> {
     let mut out = vec![];
     for bits in 0..144u32 {
         // the third block of 48: ref_func_loc together with an expression-form declared segment
-        let v = Variant { with_start: bits & 1 != 0, reexport: bits & 2 != 0, double_export: bits & 4 != 0, two_imports: bits & 8 != 0, dup_names: ((bits / 16) % 3) as u8, ref_func_loc: bits >= 48, declared_expr_segment: bits >= 96 };
+        let v = Variant { with_start: bits & 1 != 0, reexport: bits & 2 != 0, double_export: bits & 4 != 0, two_imports: bits & 8 != 0, dup_names: ((bits / 16) % 3) as u8, ref_func_loc: bits >= 48, declared_expr_segment: bits >= 96, local_start: false };
         if bits >= 96 && (v.dup_names != 0 || v.reexport) {
             continue;
         }
@@ -336,7 +356,22 @@ pub fn plan() -> Vec<Planned> {
         }
         for t in targets {
             for body in 0..8 {
-                if t == Target::ImportS && body == 1 {
+                if (t == Target::ImportS || t == Target::ExportStart) && body == 1 {
+                    continue;
+                }
+                match plan_one(&v, t, body) {
+                    Ok(p) => out.push(p),
+                    Err(e) => panic!("C18 generator: {}", e),
+                }
+            }
+        }
+    }
+    // a local start function that is also exported: replacing that export, or anything else, leaves the start section alone
+    for bits in 0..4u32 {
+        let v = Variant { with_start: false, reexport: bits & 1 != 0, double_export: bits & 2 != 0, two_imports: false, dup_names: 0, ref_func_loc: false, declared_expr_segment: false, local_start: true };
+        for t in [Target::ExportStart, Target::ExportLoc, Target::ImportA] {
+            for body in 0..8 {
+                if t == Target::ExportStart && body == 1 {
                     continue;
                 }
                 match plan_one(&v, t, body) {
@@ -414,6 +449,7 @@ fn replan(c: &Case) -> Option<Planned> {
         dup_names: c.cfg["dup_names"].as_u64().unwrap_or(0) as u8,
         ref_func_loc: c.cfg["ref_func_loc"].as_bool().unwrap_or(false),
         declared_expr_segment: c.cfg["declared_expr_segment"].as_bool().unwrap_or(false),
+        local_start: c.cfg["local_start"].as_bool().unwrap_or(false),
     };
     plan_one(&v, target_of(c.cfg["target"].as_str()?), c.cfg["body"].as_u64()? as usize).ok()
 }
